@@ -109,7 +109,7 @@ def run(rep):
         par = random_pars(rng, small_pw=rng.random() < 0.7)
         th.parameters.update(par)
         xi = 10 ** rng.uniform(-4, math.log10(0.3))
-        Q2 = Q02 if rng.random() < 0.2 else 10 ** rng.uniform(math.log10(Q02), 2)
+        Q2 = Q02 if rng.random() < 0.2 else (Q02 * (1 + 10 ** rng.uniform(-4, -1.3)) if rng.random() < 0.17 else 10 ** rng.uniform(math.log10(Q02), 2))
         t = rng.uniform(-1, 0)
         asf, asr = couplings(th, Q2)
         tag = 'p=%d/%s' % (p, scheme)
@@ -201,7 +201,7 @@ def run(rep):
         th.parameters.update(par)
         xi = 10 ** rng.uniform(-4, math.log10(0.3))
         t = rng.uniform(-1, 0)
-        Q2 = 4.0 if i % 5 == 0 else 10 ** rng.uniform(math.log10(4.0), 2)
+        Q2 = 4.0 if i % 5 == 0 else (4.0 * (1 + 10 ** rng.uniform(-4, -1.3)) if i % 5 == 1 else 10 ** rng.uniform(math.log10(4.0), 2))
         point = dict(x=xi, eta=xi, xi=xi, t=t, Q2=Q2)
         pt = g.DataPoint(point)
         # history: the relation must hold on a theory object that has already been used (forward GPDs, other points)
